@@ -1000,6 +1000,41 @@ def part_escape(env, ctx):
     ctx.traces_validated += len(strs) + len(lits)
 
 
+def part_burst(env, ctx, k):
+    glog = env.glog
+    env.n += 1
+    d = env.root / f"burst{env.n}"
+    d.mkdir()
+    path = d / "T.json.zst"
+    lg = glog.get_logger(LOGGER)
+    lg.setLevel(1)
+    lg.propagate = False
+    logging.disable(logging.NOTSET)
+    try:
+        h = glog.add_zst_log_handler(LOGGER, path, glog.Loglevel.TRACE)
+        try:
+            for i in range(k):
+                (lg.debug, lg.info, lg.trace)[i % 3](f"burst record {i}")
+        finally:
+            glog.remove_zst_log_handler(LOGGER, h)
+    finally:
+        logging.disable(logging.CRITICAL)
+    reader = glog.PenlogReader(path)
+    try:
+        n = len(reader)
+        texts = [r.data for r in reader.records(glog.PenlogPriority.TRACE)]
+    finally:
+        getattr(reader, "close", lambda: None)()
+    ctx.ev()
+    ctx.kind("burst")
+    ctx.nontrivial(("burst", k))
+    want = [f"burst record {i}" for i in range(k)]
+    if n != k or texts != want:
+        i = next((j for j, (a, b) in enumerate(zip(texts, want)) if a != b), min(len(texts), len(want)))
+        ctx.disagree("writer:burst:records-lost", f"{k} records logged in a tight loop, the file holds {n} ({len(texts)} read back); first difference at record {i}",
+                     {"burst": k}, impl={"len": n, "read": len(texts)}, model={"len": k}, spec_violated=True, site="add_zst_log_handler / _ZstdFileHandler")
+
+
 def run(ctx):
     env = Env(ctx)
     rng = ctx.rng
@@ -1060,6 +1095,10 @@ def run(ctx):
             calls = [gen_call(rng, 10), {"m": "info", "text": gen_text(rng, k, "mixed"), "tags": None, "exc": None, "created": None, "args": False},
                      {"m": "warning", "text": "x" * k, "tags": ["t"], "exc": None, "created": None, "args": False}, gen_call(rng, 10)]
             go(calls, sampled_plan(rng, 4, conts, 6, 2, 4), "very-long-lines")
+        # 4b. bursts: thousands of records logged in a tight loop, faster than the writer thread compresses them - every one must be
+        #     in the file, in order (the hand-over queue between the logging call and the writer is unbounded)
+        for k in ctx.pick([12000], [12000, 60000]):
+            part_burst(env, ctx, k)
         # 5. the real entry point as a process: stdin container and files
         for i in range(ctx.pick(6, 40)):
             n = rng.choice([0, 1, 2, 3, 6])
